@@ -51,12 +51,11 @@ def is_pd(theta):
         return False
     try:
         L = np.linalg.cholesky(theta)
-        d = np.diag(L)
-        if np.all(np.isfinite(L)) and d.min() > 1e-6 * d.max():
-            return True
+        if np.all(np.isfinite(L)) and np.all(np.diag(L) > 0):
+            return True          # accepted (a marginally indefinite matrix may slip through: no false alarm possible)
     except np.linalg.LinAlgError:
         pass
-    return exact_pd(theta)
+    return exact_pd(theta)       # Cholesky failed: decide exactly, so a badly conditioned but truly PD matrix never alarms
 
 
 def exact_pd(theta):
